@@ -125,6 +125,8 @@ def run_sequence(seq, A, Cn, prior):
 def enc_op(op, trace):
     nd = sum(1 for e in trace if e == 'd')
     if op[0] == 'set':
+        if op[1] is not None and not (isinstance(op[1], int) and not isinstance(op[1], bool)):
+            return 'con:other'          # an argument setSeed ignores: no seeding event, no change of state (same contract as an un-seeded construction)
         return 'set:none' if op[1] is None else f'set:{op[1]}'
     arg = op[2]
     kind = 'int' if isinstance(arg, int) and not isinstance(arg, bool) else ('none' if arg is None else 'other')
@@ -168,7 +170,7 @@ def explore(res, rng, n):
                 elif r < 0.9:
                     seq.append(('api', rng.choice(names), rng.choice([4, 17, 2 ** 31 + 5, gs, gs])))      # incl. the installed global seed itself
                 else:
-                    seq.append(('set', rng.choice([5, None, 2 ** 32 - 1])))
+                    seq.append(('set', rng.choice([5, None, 2 ** 32 - 1, 2.5, '7', 2.5])))        # incl. arguments that setSeed ignores
         o1, t1 = run_sequence(seq, A, Cn, prior=31 + i)
         o2, t2 = run_sequence(seq, A, Cn, prior=977 + i)
         res.evaluations += 1
